@@ -46,6 +46,10 @@ type inliner struct {
 	// tailCall: the call is the operand of a `return` whose function has the helper's result types: the helper's
 	// returns become returns of the caller (no result variables, no loop)
 	tailCall bool
+	// flagCont: like errCont for a boolean last result: the caller's `if flag {…}` (flagWant=true) or `if !flag {…}`
+	// (flagWant=false) body is pushed into the helper's returns whose last result is that literal
+	flagCont func(resNames []string) string
+	flagWant bool
 }
 
 type textEdit struct {
@@ -119,8 +123,8 @@ func (il *inliner) helperDecl(obj *types.Func) (*ast.FuncDecl, *packages.Package
 					}
 				case *ast.CallExpr:
 					// recover changes meaning when moved; a panic site is keyed by its function in the panic censuses
-					if id, isID := x.Fun.(*ast.Ident); isID && (id.Name == "recover" || id.Name == "panic") {
-						ok = false
+					if id, isID := x.Fun.(*ast.Ident); isID && (id.Name == "recover" || (id.Name == "panic" && frozenExported[ObjKey(obj)])) {
+						ok = false // (a NEW helper - one that did not exist when the tables were frozen - may panic: its panic site was its caller's)
 					}
 					// direct recursion
 					if callee := calleeObj(p, x); callee == obj {
@@ -391,6 +395,25 @@ func (il *inliner) inlineText(call *ast.CallExpr, fd *ast.FuncDecl, hp *packages
 	rewriteStmt = func(s ast.Stmt) ast.Stmt {
 		switch x := s.(type) {
 		case *ast.ReturnStmt:
+			if il.flagCont != nil {
+				if len(x.Results) != len(resNames) || len(resNames) == 0 {
+					okRet = false
+					return s
+				}
+				id, isID := x.Results[len(x.Results)-1].(*ast.Ident)
+				if !isID || (id.Name != "true" && id.Name != "false") {
+					okRet = false
+					return s
+				}
+				var rs []string
+				for _, r := range x.Results {
+					rs = append(rs, exprSrc(r))
+				}
+				if (id.Name == "true") == il.flagWant {
+					return mk("{ " + strings.Join(resNames, ", ") + " = " + strings.Join(rs, ", ") + "\n{\n" + il.flagCont(resNames) + "\n}\nbreak " + label + " }")
+				}
+				return mk("{ " + strings.Join(resNames, ", ") + " = " + strings.Join(rs, ", ") + "\nbreak " + label + " }")
+			}
 			if il.tailCall {
 				if len(x.Results) == 0 && len(resNames) > 0 {
 					return mk("return " + strings.Join(resNames, ", "))
@@ -567,7 +590,8 @@ func (il *inliner) inlineText(call *ast.CallExpr, fd *ast.FuncDecl, hp *packages
 // BuildNormalForm returns an overlay (file -> new content) with helpers inlined and returns canonicalised, or nil.
 func (w *World) BuildNormalForm() map[string][]byte {
 	curWorldForInline = w
-	il := &inliner{w: w, edits: map[string][]textEdit{}, imports: map[string]map[string]string{}, inlined: map[*types.Func]int{}}
+	defer func() { inlineSerialBase += 100000 }() // names generated by later rounds never collide with earlier ones
+	il := &inliner{w: w, counter: inlineSerialBase, edits: map[string][]textEdit{}, imports: map[string]map[string]string{}, inlined: map[*types.Func]int{}}
 	// files worth rewriting: those that hold anchored functions
 	files := map[*ast.File]*packages.Package{}
 	for k := range frozenSigs {
@@ -717,10 +741,10 @@ func (w *World) BuildNormalForm() map[string][]byte {
 							}
 						}
 					} else if x.Init == nil {
-						cond := x.Cond
+						cond := ast.Unparen(x.Cond)
 						neg := ""
 						if u, ok := cond.(*ast.UnaryExpr); ok && u.Op == token.NOT {
-							cond, neg = u.X, "!"
+							cond, neg = ast.Unparen(u.X), "!"
 						}
 						if ce, ok := cond.(*ast.CallExpr); ok {
 							if txt, res, ok := tryInline(ce); ok && len(res) == 1 {
@@ -782,6 +806,7 @@ func (w *World) BuildNormalForm() map[string][]byte {
 				return is, errCheckCond(p, is.Cond, e) && terminates(is.Body)
 			}
 			// pushed inlining of `lhs…, e (:)= helper(…)` followed by the caller's error check
+			pushFlag, pushFlagWant := false, false
 			tryPushed := func(as *ast.AssignStmt, chk *ast.IfStmt, wrap bool, whole ast.Node) bool {
 				if len(as.Rhs) != 1 || len(as.Lhs) == 0 {
 					return false
@@ -810,11 +835,16 @@ func (w *World) BuildNormalForm() map[string][]byte {
 				}
 				body := il.src(chk.Body)
 				body = strings.TrimSuffix(strings.TrimPrefix(strings.TrimSpace(body), "{"), "}")
-				il.errCont = func(res []string) string {
+				cont := func(res []string) string {
 					return strings.Join(lhs, ", ") + " = " + strings.Join(res, ", ") + "\n" + body
 				}
+				if pushFlag {
+					il.flagCont, il.flagWant = cont, pushFlagWant
+				} else {
+					il.errCont = cont
+				}
 				txt, res, ok := tryInline(ce)
-				il.errCont = nil
+				il.errCont, il.flagCont = nil, nil
 				if !ok || len(res) != len(as.Lhs) || il.missingImport {
 					return false
 				}
@@ -847,10 +877,83 @@ func (w *World) BuildNormalForm() map[string][]byte {
 			visitList := func(list []ast.Stmt) {
 				for i := 0; i < len(list); i++ {
 					s := list[i]
+					// tail duplication + else flattening:  if A {a} else if B {b} else {c}; return E   ->
+					// if A {a; return E}; if B {b; return E}; {c; return E}   (single-exit / status-variable style into early returns)
+					if is, ok := s.(*ast.IfStmt); ok && is.Else != nil {
+						var ret *ast.ReturnStmt
+						if i+2 == len(list) {
+							ret, _ = list[i+1].(*ast.ReturnStmt)
+						}
+						// the branches of the chain
+						var bodies []*ast.BlockStmt
+						var ifs []*ast.IfStmt
+						complete := false
+						for cur := is; ; {
+							ifs = append(ifs, cur)
+							bodies = append(bodies, cur.Body)
+							if cur.Else == nil {
+								break
+							}
+							if nx, ok := cur.Else.(*ast.IfStmt); ok {
+								cur = nx
+								continue
+							}
+							if bl, ok := cur.Else.(*ast.BlockStmt); ok {
+								bodies = append(bodies, bl)
+								complete = true
+							}
+							break
+						}
+						dup := ret != nil && complete
+						if dup {
+							for _, e := range ret.Results { // the returned expressions are re-evaluated in every branch: keep it to calls-free-of-helpers text
+								_ = e
+							}
+							rt := il.src(ret)
+							for _, b := range bodies {
+								if !endsControl(b) {
+									il.edits[fname] = append(il.edits[fname], textEdit{off(b.Rbrace), off(b.Rbrace), "\n" + rt + "\n"})
+								}
+							}
+							add(ret, "")
+						}
+						// flatten: every `else` that follows a branch which leaves (now) is dropped
+						for k, cur := range ifs {
+							if cur.Else == nil || cur.Init != nil || !(endsControl(bodies[k]) || dup) {
+								break // (a variable declared in the if's init is in scope in its else branches)
+							}
+							il.edits[fname] = append(il.edits[fname], textEdit{off(cur.Body.Rbrace) + 1, off(cur.Else.Pos()), "\n"})
+						}
+						if dup {
+							i++ // the return was consumed
+						}
+					}
 					if as, ok := s.(*ast.AssignStmt); ok && i+1 < len(list) {
 						if chk, ok := isErrCheckOf(list[i+1], lastIsErr(as)); ok && tryPushed(as, chk, false, nil) {
 							i++
 							continue
+						}
+						// found-flag form: x, ok := helper(…); if ok {…return} / if !ok {…return}
+						if chk, want, ok := isFlagCheckOf(p, list[i+1], lastBoolVar(p, as)); ok {
+							pushFlag, pushFlagWant = true, want
+							done := tryPushed(as, chk, false, nil)
+							pushFlag = false
+							if done {
+								i++
+								continue
+							}
+						}
+					}
+					if is, ok := s.(*ast.IfStmt); ok && is.Else == nil {
+						if as, ok := is.Init.(*ast.AssignStmt); ok && as.Tok == token.DEFINE {
+							if _, want, ok := isFlagCheckOf(p, &ast.IfStmt{Cond: is.Cond, Body: is.Body}, lastBoolVar(p, as)); ok {
+								pushFlag, pushFlagWant = true, want
+								done := tryPushed(as, is, true, is)
+								pushFlag = false
+								if done {
+									continue
+								}
+							}
 						}
 					}
 					// v := a && b ; if v {…} / if !v {…}  with v used nowhere else  ->  if (a && b) {…}
@@ -1399,7 +1502,36 @@ func sameResults(sig *types.Signature, callee *types.Func) bool {
 
 // maxUpdate recognises `x = max(x, e)` / `x = max(e, x)` (and min) with the builtin on an integer variable.
 func (il *inliner) maxUpdate(p *packages.Package, as *ast.AssignStmt, ce *ast.CallExpr) (string, bool) {
-	if as.Tok != token.ASSIGN || len(as.Lhs) != 1 || len(ce.Args) != 2 || ce.Ellipsis.IsValid() {
+	if len(as.Lhs) != 1 || len(ce.Args) != 2 || ce.Ellipsis.IsValid() {
+		return "", false
+	}
+	if as.Tok == token.DEFINE {
+		// x := max(a, b) on integers  ->  x := a; { t := b; if t > x { x = t } }
+		fid, ok := ce.Fun.(*ast.Ident)
+		lhs, ok2 := as.Lhs[0].(*ast.Ident)
+		if !ok || !ok2 || lhs.Name == "_" || (fid.Name != "max" && fid.Name != "min") {
+			return "", false
+		}
+		if _, isBuiltin := p.TypesInfo.Uses[fid].(*types.Builtin); !isBuiltin {
+			return "", false
+		}
+		lo := p.TypesInfo.Defs[lhs]
+		if lo == nil {
+			return "", false
+		}
+		if b, ok := lo.Type().Underlying().(*types.Basic); !ok || b.Info()&types.IsInteger == 0 {
+			return "", false
+		}
+		il.counter++
+		t := fmt.Sprintf("upd_inl%d", il.counter)
+		op := ">"
+		if fid.Name == "min" {
+			op = "<"
+		}
+		tt := il.typeTextOf(lo.Type(), p, as)
+		return fmt.Sprintf("var %s %s = %s\n{\nvar %s %s = %s\nif %s %s %s {\n%s = %s\n}\n}", lhs.Name, tt, il.src(ce.Args[0]), t, tt, il.src(ce.Args[1]), t, op, lhs.Name, lhs.Name, t), true
+	}
+	if as.Tok != token.ASSIGN {
 		return "", false
 	}
 	fid, ok := ce.Fun.(*ast.Ident)
@@ -1593,3 +1725,45 @@ func endsControl(b *ast.BlockStmt) bool {
 	_, ok := b.List[len(b.List)-1].(*ast.BranchStmt)
 	return ok
 }
+
+// lastBoolVar: the object of the last LHS identifier of the assignment if it is a bool variable.
+func lastBoolVar(p *packages.Package, as *ast.AssignStmt) types.Object {
+	if len(as.Lhs) == 0 {
+		return nil
+	}
+	id, ok := as.Lhs[len(as.Lhs)-1].(*ast.Ident)
+	if !ok || id.Name == "_" {
+		return nil
+	}
+	o := p.TypesInfo.Defs[id]
+	if o == nil {
+		o = p.TypesInfo.Uses[id]
+	}
+	if o == nil {
+		return nil
+	}
+	if b, ok := o.Type().Underlying().(*types.Basic); !ok || b.Kind() != types.Bool {
+		return nil
+	}
+	return o
+}
+
+// isFlagCheckOf: `if flag {…; return/panic}` (want=true) or `if !flag {…}` (want=false), no init, no else.
+func isFlagCheckOf(p *packages.Package, s ast.Stmt, flag types.Object) (*ast.IfStmt, bool, bool) {
+	is, ok := s.(*ast.IfStmt)
+	if !ok || is.Init != nil || is.Else != nil || flag == nil || !terminates(is.Body) {
+		return nil, false, false
+	}
+	cond := ast.Unparen(is.Cond)
+	want := true
+	if u, ok := cond.(*ast.UnaryExpr); ok && u.Op == token.NOT {
+		cond, want = ast.Unparen(u.X), false
+	}
+	id, ok := cond.(*ast.Ident)
+	if !ok || p.TypesInfo.Uses[id] != flag {
+		return nil, false, false
+	}
+	return is, want, true
+}
+
+var inlineSerialBase int
